@@ -669,6 +669,108 @@ pub fn random_sentence(b: &Bnf, rng: &mut Rng, budget: usize) -> Option<Vec<usiz
     Some(out)
 }
 
+/// Random derivation of the grammar *as written* (EBNF), keeping for every token whether it is
+/// visible in the typed AST: a token is hidden when its own occurrence is clipped or when it was
+/// derived below a clipped non-terminal occurrence. Returns (terminal id, visible).
+pub fn random_derivation(g: &Grammar, rng: &mut Rng, budget: usize) -> Option<Vec<(usize, bool)>> {
+    // minimal yield length per rule (None = unproductive), fixpoint over the EBNF structure
+    let names = g.nt_names();
+    let idx = |n: &str| names.iter().position(|x| x == n);
+    let mut minlen: Vec<Option<usize>> = vec![None; names.len()];
+    fn seq_min(seq: &Vec<Factor>, minlen: &[Option<usize>], idx: &dyn Fn(&str) -> Option<usize>) -> Option<usize> {
+        let mut total = 0usize;
+        for f in seq {
+            total += match f {
+                Factor::T(..) => 1,
+                Factor::N(n, _) => minlen[idx(n.as_str())?]?,
+                Factor::Grp(a) => alts_min(a, minlen, idx)?,
+                Factor::Opt(_) | Factor::Rep(_) => 0,
+            };
+        }
+        Some(total)
+    }
+    fn alts_min(alts: &Alts, minlen: &[Option<usize>], idx: &dyn Fn(&str) -> Option<usize>) -> Option<usize> {
+        alts.iter().filter_map(|a| seq_min(a, minlen, idx)).min()
+    }
+    loop {
+        let mut changed = false;
+        for (i, n) in names.iter().enumerate() {
+            let mut best: Option<usize> = None;
+            for r in g.rules.iter().filter(|r| r.name == *n) {
+                if let Some(m) = alts_min(&r.alts, &minlen, &idx) {
+                    best = Some(best.map_or(m, |b: usize| b.min(m)));
+                }
+            }
+            if best.is_some() && (minlen[i].is_none() || best < minlen[i]) {
+                minlen[i] = best;
+                changed = true;
+            }
+        }
+        if !changed {
+            break;
+        }
+    }
+    struct Cx<'a> {
+        g: &'a Grammar,
+        names: &'a [String],
+        minlen: &'a [Option<usize>],
+        budget: usize,
+        out: Vec<(usize, bool)>,
+        steps: usize,
+    }
+    fn pick_alt<'b>(cx: &mut Cx, rng: &mut Rng, alts: &'b Alts) -> Option<&'b Vec<Factor>> {
+        let idx = |n: &str| cx.names.iter().position(|x| x == n);
+        let viable: Vec<(&Vec<Factor>, usize)> = alts.iter().filter_map(|a| seq_min(a, cx.minlen, &idx).map(|m| (a, m))).collect();
+        if viable.is_empty() {
+            return None;
+        }
+        if cx.out.len() >= cx.budget {
+            viable.iter().min_by_key(|(_, m)| *m).map(|(a, _)| *a)
+        } else {
+            Some(viable[rng.below(viable.len())].0)
+        }
+    }
+    fn expand_alts(cx: &mut Cx, rng: &mut Rng, alts: &Alts, hidden: bool) -> Option<()> {
+        let alt = pick_alt(cx, rng, alts)?.clone();
+        for f in &alt {
+            cx.steps += 1;
+            if cx.steps > 20000 {
+                return None;
+            }
+            match f {
+                Factor::T(t, c) => cx.out.push((*t, !(hidden || c.clip))),
+                Factor::N(n, c) => {
+                    let rule_alts: Alts = cx.g.rules.iter().filter(|r| r.name == *n).flat_map(|r| r.alts.clone()).collect();
+                    expand_alts(cx, rng, &rule_alts, hidden || c.clip)?;
+                }
+                Factor::Grp(a) => expand_alts(cx, rng, a, hidden)?,
+                Factor::Opt(a) => {
+                    if cx.out.len() < cx.budget && rng.chance(1, 2) {
+                        expand_alts(cx, rng, a, hidden)?;
+                    }
+                }
+                Factor::Rep(a) => {
+                    while cx.out.len() < cx.budget && rng.chance(3, 5) {
+                        let before = cx.out.len();
+                        expand_alts(cx, rng, a, hidden)?;
+                        if cx.out.len() == before {
+                            break;
+                        }
+                    }
+                }
+            }
+        }
+        Some(())
+    }
+    let start_alts: Alts = g.rules.iter().filter(|r| r.name == g.start).flat_map(|r| r.alts.clone()).collect();
+    let mut cx = Cx { g, names: &names, minlen: &minlen, budget, out: vec![], steps: 0 };
+    expand_alts(&mut cx, rng, &start_alts, false)?;
+    if cx.out.len() > budget * 4 + 50 {
+        return None;
+    }
+    Some(cx.out)
+}
+
 /// All strings over 0..alphabet up to length max_len, capped.
 pub fn all_strings(alphabet: usize, max_len: usize, cap: usize) -> Vec<Vec<usize>> {
     let mut out: Vec<Vec<usize>> = vec![vec![]];
